@@ -205,6 +205,8 @@ func runFaultScenario(t *testing.T, rec *recorder, f fault, seed uint64, scratch
 			_ = h.eng.Stop(context.Background())
 		}
 		time.Sleep(20 * time.Millisecond)
+		// C19: the handle of an engine that has shut down (for whatever reason) reports so
+		rec.emit("AfterRun", "validate", errClass(h.eng.Validate()), "count", h.eng.CountConnections())
 		h.closeDups(true)
 		rec.emit("Grace")
 		rep.Eval(fmt.Sprintf("fatal-%s-%s-%d-%v", f.syscall, f.errno, f.when, f.et))
